@@ -347,6 +347,11 @@ class Source:
         items = self.items
         cur = None
         for p in path:
+            nth = None
+            m_n = re.search(r'\s#(\d+)$', p)
+            if m_n:
+                nth = int(m_n.group(1))
+                p = p[:m_n.start()].strip()
             kind = re.match(r'[a-z]+', p).group(0)
             rest = p[len(kind):].strip()
             cands = []
@@ -362,6 +367,10 @@ class Source:
                         cands.append(it)
                 elif it.name == rest:
                     cands.append(it)
+            if nth is not None:
+                if nth >= len(cands):
+                    raise LostAnchor('%s: only %d matches for %r, #%d wanted' % (self.path, len(cands), p, nth))
+                cands = [cands[nth]]
             if len(cands) != 1:
                 raise LostAnchor('%s: %d matches for %r (of %r)' % (self.path, len(cands), p, spec))
             cur = cands[0]
